@@ -84,6 +84,7 @@ class Ctx:
         self.allow_concretize = False
         self.consts = {}  # name -> (z3 var, float) algebraic constants (sqrt 2, sqrt 3, ...)
         self.monotone = False  # add pairwise strict-monotonicity axioms between atoms of exp/log/sqrt/erf/atan
+        self.exp_bounds = False  # add the sound Taylor bounds  e^t >= 1+t,  e^t (1-t) <= 1,  t<=0 -> e^t (1-t+t^2/2) <= 1
 
     def check(self, f, timeout=30000):
         """decide validity of f under the path condition: 'unsat' (valid), 'sat' (+model), 'unknown'"""
@@ -676,7 +677,7 @@ def sym_sqrt(t, strict=False):
         return NAN
     t = norm(t)
     sp = _split_ite(t)
-    if sp is not None:
+    if sp is not None and sp[1].c >= 0 and sp[2].c >= 0:
         return ite(sp[0], sym_sqrt(sp[1]), sym_sqrt(sp[2]))
     if t.is_const():
         f = fr(t.n)
@@ -740,7 +741,19 @@ def sym_exp(t):
     for a, r in CTX.fun.get("exp", []):
         if key(a.c) == key(neg.c) and CTX.valid(eq_formula(a, neg)):
             return r.inv()
-    return ufun("exp", t, math.exp(t.c), lambda v, a: [v > 0])
+    def ax(v, a):
+        out = [v > 0]
+        if CTX.exp_bounds:
+            # t = a.n / a.d ; multiply through by even powers of the denominator to stay polynomial and sign-safe
+            n_, d_ = a.n, a.d
+            d2 = d_ * d_
+            out.append(v * d2 >= d2 + n_ * d_)                      # e^t >= 1 + t
+            out.append(v * (d2 - n_ * d_) <= d2)                    # e^t (1 - t) <= 1
+            out.append(z3.Implies(n_ * d_ <= 0, v * (2 * d2 - 2 * n_ * d_ + n_ * n_) <= 2 * d2))  # t<=0: e^t (1 - t + t^2/2) <= 1
+            out.append(z3.Implies(n_ * d_ <= 0, v <= 1))
+            out.append(z3.Implies(n_ * d_ >= 0, v >= 1))
+        return out
+    return ufun("exp", t, math.exp(t.c), ax)
 
 
 def sym_log(t):
